@@ -61,6 +61,7 @@ def gen_cases(tier, seed):
             rng = bases.rng_for("C01", seed, tier, "window", la, lb, t)
             shells, classes = bases.window_pair(rng, la, lb, tmin=t, tmax=t + 2)
             cases.append({"shells": shells, "classes": classes + ["l:%d,%d" % (la, lb), "nsh:2", "window-sweep"], "cost": 40})
+    cases += bases.dup_variants("C01", seed, tier, cases, 9)  # one shell listed twice as the same object
     return cases
 
 
